@@ -295,7 +295,7 @@ pub fn judge_d(p: &Pos, d: u8, kind: &str, stats: &mut Stats) -> Verdict {
 /// reference confirms that the move mates).  Yields mates by en-passant capture (direct and through
 /// the square of the captured pawn), by castling, by promotion and under-promotion (also backwards
 /// through the vacated square), by discovery with every kind of blocker, and by every single man.
-fn grid_mates(it: &crate::grid::GridItem) -> Vec<(Pos, Mv, &'static str)> {
+pub fn grid_mates(it: &crate::grid::GridItem) -> Vec<(Pos, Mv, &'static str)> {
     let mut out = Vec::new();
     let Some(p) = crate::grid::build(it) else { return out };
     for m in p.legal_moves() {
